@@ -153,7 +153,11 @@ def EnumVerdict.toSexp : EnumVerdict → Sexp
     program with coinductive predicates is the F11 shape, also when the goal reaches the coinductive
     predicate only through an inductive one -/
 def refineF11 (P : Program) (slg : Bool) (c : String) : String :=
-  if c == "unique_does_not_hold" && slg && P.clauses.any (fun cl => P.coind cl.head.pred) then "slg_coinductive_variant_cycle" else c
+  if slg && P.clauses.any (fun cl => P.coind cl.head.pred) then
+    if c == "unique_does_not_hold" then "slg_coinductive_variant_cycle"
+    else if c == "unique_excludes_solution" then "slg_coinductive_unique_excludes_solution"
+    else c
+  else c
 
 def opsSem : Sexp → Option Sexp
   | .list [.atom "decide", p, g, fuel] => do
